@@ -147,6 +147,8 @@ static void build_devs (void)
 	 * and the two other construction routes (rows before columns gives a non-identity structural map) */
 	ADD (D_WIDE, 0, 3);
 	for (int v = 0; v < 2; v++) ADD (D_ROUTE, 0, v);
+	/* bounds that end exactly at zero (the writers treat a zero bound as the default in several places) */
+	for (int c = 0; c < 2; c++) for (int v = 8; v < 11; v++) ADD (D_BOUND, c, v);
 #undef ADD
 }
 static long choose (int n, int k) { if (k < 0 || k > n) return 0; long r = 1; for (int i = 1; i <= k; i++) r = r * (n - k + i) / i; return r; }
@@ -211,6 +213,9 @@ static int apply_devs (RefLP * M, const int *set, int k, int *target, SBuf * des
 			case 4: set_bounds (M, d.target, NULL, "-1"); break;
 			case 5: set_bounds (M, d.target, "-5", "-1"); break;
 			case 6: set_bounds (M, d.target, "0", "0"); break;
+			case 8: set_bounds (M, d.target, NULL, "0"); break;
+			case 9: set_bounds (M, d.target, "-2", "0"); break;
+			case 10: set_bounds (M, d.target, "-2", NULL); break;
 			default: set_bounds (M, d.target, NULL, "3"); break;
 			}
 			sb_printf (desc, "bound%d:shape%d ", d.target, d.val); break;
